@@ -60,7 +60,7 @@ PROPS["C03"] = {
     "level_text": "Round trip decode(encode(frame)) == frame on the real encoder+decoder pairs of H264, H265, AV1, VP8, VP9, fragmented (MPEG-4 video/LATM), KLV, MPEG-1 video (1-2 slices), MPEG-4 audio (SizeLength/IndexLength/IndexDeltaLength (13,3,3), (6,2,2) and the unequal (6,0,2), (6,2,0)), MPEG-1 audio and AC-3 (frame lengths fixed by the real header parsers; fragmented, single and aggregated regimes), M-JPEG (baseline JPEG with symbolic tables in any two of the slots 0..3, dimensions, sampling type and entropy data; the rebuilt image has the same dimensions, type, tables and data), LPCM, simple audio, MPEG-TS: frame contents fully symbolic, unit lengths symbolic 1..P (P 8-16; audio frames 48-140 bytes), 1-3 units (6 for the AU-header layouts), payload limit case-split over its whole small range, initial sequence number symbolic (wrap inside a frame included), K=1 (quick) / 2 (thorough) consecutive frames; 'more packets needed' before the completing packet and exact equality at it.",
     "level_note": 'Preconditions (valid frames) are written in the harnesses and listed in the evidence (e.g. no start code inside NALUs, VP9 header parsable, audio header accepted by the codec library with the declared length). Outside: the default MTU 1450 for the round trip (only the small-limit regime; thresholds are relative to the limit so every aggregation/fragmentation boundary is crossed; C06 covers sizes at the default limit), M-JPEG restart intervals and more than two tables, P/N/K beyond the registered values.',
     "runs": codec_runs("ZzC03", quick={"*": {"K": 1}, "rtpav1": {"K": 1, "N": 3, "P": 8}},
-                       thorough={"*": {"K": 2, "P": 7, "MHI": 7}, "rtpav1": {"K": 1, "N": 3, "P": 10}, "rtpvp9": {"K": 2, "P": 14, "MHI": 14}, "rtpklv": {"K": 2, "P": 22, "MHI": 12}}),
+                       thorough={"*": {"K": 2, "P": 7, "MHI": 7}, "rtpav1": {"K": 1, "N": 3, "P": 10}, "rtpvp9": {"K": 2, "P": 14, "MHI": 14}, "rtpklv": {"K": 2, "P": 22, "MHI": 20}}),
 }
 PROPS["C06"] = {
     "level_text": 'For every encoder listed under C03: payload <= PayloadMaxSize (limit symbolic over its small range), sequence numbers +1 modulo 2^16 from a symbolic initial value across K calls (so wraps inside a fragmented frame are covered), SSRC/payload type/version, marker placement, inputs never written (engine write monitor + native copy compare). In addition, for H264, H265, AV1, VP8, VP9 and fragmented: the DEFAULT limit (PayloadMaxSize unset => 1450) with 1..3 units of 1..4500 bytes carried by length-only buffers (lengths symbolic and exact), so every single/aggregated/fragmented threshold around the real default is crossed.',
